@@ -330,6 +330,8 @@ func (fc *FuncCtx) execCall0(fr *Frame, st *State, site ssa.Instruction, c *ssa.
 		fc.u.Assumptions["dynamic call of an unknown function value: arbitrary effect on all modelled heap (sound default)"] = true
 		fc.havocAll(st)
 		fc.bumpAlloc(st)
+		// (counted under the name of the variable or field that holds the function: calls(handle))
+		fc.bumpCalls(st, short)
 		return mkResult(nil)
 	}
 	short0, full0 := short, full
